@@ -99,7 +99,9 @@ def obs_term(call, res):
     nm = call[0]
     if "err" in res:
         if nm in ("c2v", "c2f") and call[1] == "area":
-            return "(O_%s WArea %s None)" % (nm, coq_list([dy(v) for v in call[2]]))
+            vals = call[2]
+            comps = [[x[j] for x in vals] for j in range(3)] if vals and isinstance(vals[0], list) else [vals]
+            return "; ".join("(O_%s WArea %s None)" % (nm, coq_list([dy(x) for x in vi])) for vi in comps)
         return None
     v = res["ok"]
     if not finite(v):
@@ -148,16 +150,25 @@ def obs_term(call, res):
         return "(O_total_area %s)" % dy(v)
     if nm == "bary":
         return "(O_bary %s)" % dy3(v)
-    if nm == "v2f":
-        return "(O_v2f %s %s)" % (sl(call[2]), sl(v))
-    if nm == "f2v":
-        return "(O_f2v %s %s %s)" % (WTAG[call[1]], sl(call[2]), sl(v))
-    if nm == "sv2c":
-        return "(O_sv2c %s %s)" % (sl(call[2]), sl(v))
-    if nm == "sf2c":
-        return "(O_sf2c %s %s)" % (sl(call[2]), sl(v))
-    if nm in ("c2v", "c2f"):
-        return "(O_%s %s %s (Some %s))" % (nm, WTAG[call[1]], sl(call[2]), sl(v))
+    if nm in ("v2f", "f2v", "sv2c", "sf2c", "c2v", "c2f"):
+        vals = call[2]
+        if vals and isinstance(vals[0], list):
+            comps = [([x[j] for x in vals], [y[j] for y in v]) for j in range(3)]
+        else:
+            comps = [(vals, v)]
+        terms = []
+        for vi, vo in comps:
+            if nm == "v2f":
+                terms.append("(O_v2f %s %s)" % (sl(vi), sl(vo)))
+            elif nm == "f2v":
+                terms.append("(O_f2v %s %s %s)" % (WTAG[call[1]], sl(vi), sl(vo)))
+            elif nm == "sv2c":
+                terms.append("(O_sv2c %s %s)" % (sl(vi), sl(vo)))
+            elif nm == "sf2c":
+                terms.append("(O_sf2c %s %s)" % (sl(vi), sl(vo)))
+            else:
+                terms.append("(O_%s %s %s (Some %s))" % (nm, WTAG[call[1]], sl(vi), sl(vo)))
+        return "; ".join(terms)
     raise RuntimeError("no encoding for " + nm)
 
 
@@ -429,8 +440,14 @@ def expected(T, edges, call):
         return None if any(v is None for v in vals) else sum(vals)
     if nm == "bary":
         return T.mean_pt(list(range(nv)))
-    # interpolation
+    # interpolation: the expected value is computed from what the input attribute READS (attr[i], total map); a vector
+    # attribute is interpolated component by component
     w, vals = call[1], call[2]
+    if vals and isinstance(vals[0], list):
+        comps = [expected(T, edges, [nm, w, [x[j] for x in vals]] + list(call[3:])) for j in range(3)]
+        if any(c is None or isinstance(c, tuple) for c in comps):
+            return comps[0] if isinstance(comps[0], tuple) else None
+        return [[comps[0][i], comps[1][i], comps[2][i]] for i in range(len(comps[0]))]
     cl = T.corner_list()
     if nm == "v2f":
         return [sum(vals[v] for v in f) / len(f) for f in T.F]
@@ -542,9 +559,11 @@ def oracle_case(case, out):
             chi = len(T.V) - len(T.und_edges()) + len(T.F)
             if not close(sum(got), 2 * math.pi * chi, scale=10.0):
                 bad.append((k, "angle defects sum to %r, 2*pi*chi = %r (chi=%d)" % (sum(got), 2 * math.pi * chi, chi)))
-        if call[0] in ("v2f", "f2v", "sv2c", "sf2c", "c2v", "c2f") and len(set(call[2])) == 1 and call[1] != "sum" and finite(got):
+        if call[0] in ("v2f", "f2v", "sv2c", "sf2c", "c2v", "c2f") and call[2] and all(x == call[2][0] for x in call[2]) \
+                and call[1] != "sum" and finite(got):
             c = call[2][0]
-            if not all(close(g, c) for g in got):
+            okc = all(closev(g, c) for g in got) if isinstance(c, list) else all(close(g, c) for g in got)
+            if not okc:
                 bad.append((k, "%s%s of the constant %r returned %r" % (call[0], _opts(call), c, got[:6])))
     # side effects of every call: it must not move the vertices, a non-persistent call must not leave attributes on the
     # mesh, a persistent one must leave its attribute (under the requested name) and only the documented companions
@@ -619,7 +638,13 @@ def attr_effects(call):
 def _opts(call):
     nm = call[0]
     if nm in ("v2f", "f2v", "sv2c", "sf2c", "c2v", "c2f"):
-        return "(weight=%r, dense_in=%r, dense_out=%r, output %s)" % (call[1], call[3], call[4], "preloaded" if call[5] else "fresh")
+        st = call[3]
+        if isinstance(st, list):
+            st = "%s input created with default_value=%r, %d of %d entries written" % ("dense" if st[0] == "d" else "sparse", st[1], len(st[2]), len(call[2]))
+        else:
+            st = "dense input" if st else "sparse input, every entry written"
+        return "(weight=%r, %s, %s values, dense_out=%r, output %s)" % (call[1], st, "vector" if call[2] and isinstance(call[2][0], list) else "scalar",
+                                                                          call[4], "preloaded" if call[5] else "fresh")
     return "(%s)" % ", ".join(repr(x) for x in call[1:])
 
 
@@ -644,7 +669,9 @@ def oracle_invariance(base, bout, var, vout):
         b, v = rb["ok"], rv["ok"]
         if nm in POWER:
             f = lam ** POWER[nm]
-            bl, vl = (b, v) if isinstance(b, list) else ([b], [v])
+            def flat(z):
+                return [t for y_ in z for t in flat(y_)] if isinstance(z, list) else [z]
+            bl, vl = flat(b), flat(v)
             ok = len(bl) == len(vl) and all(close(y, f * x, scale=f) for x, y in zip(bl, vl))
             what = "scales by lambda^%d = %g" % (POWER[nm], f)
         elif nm in POINTS or nm in DIRS:
@@ -776,7 +803,7 @@ def map_values_renumber(call, ren, base_faces):
             r = ren["rots"][k]
             for i in range(n):
                 new.append(vals[first[of] + (i + r) % n])
-    return [nm, call[1], new, call[3], call[4], None]
+    return [nm, call[1], new, call[3] if isinstance(call[3], bool) else False, call[4], None]
 
 
 def gen_family(rng, fam_id, tier):
@@ -811,7 +838,7 @@ def gen_family(rng, fam_id, tier):
                     vals = []
                     for fi, f in enumerate(F):
                         vals += list(reversed(c[2][first[fi]:first[fi] + len(f)]))
-                    sc.append([c[0], c[1], vals] + list(c[3:]))
+                    sc.append([c[0], c[1], vals, c[3] if isinstance(c[3], bool) else False] + list(c[4:]))
                 elif c[0] == "vnormals_c":
                     sc.append([c[0], c[1], [[-x for x in v] for v in c[2]]] + list(c[3:]))
                 else:
@@ -981,7 +1008,8 @@ def classify(call, msg):
         return KEY_SKEW
     nm = call[0] if call else "build"
     if nm in ("v2f", "f2v", "sv2c", "sf2c", "c2v", "c2f"):
-        return "interp/%s/%s/%s" % (nm, call[1], "preloaded" if call[5] else "fresh")
+        return "interp/%s/%s/%s/%s" % (nm, call[1], "preloaded" if call[5] else "fresh",
+                                       "default-carried" if isinstance(call[3], list) else "written")
     if nm in ("mean_edge", "mean_area", "mean_vol"):
         return "glob/%s/%s" % (nm, "n" if call[1] is not None else "all")
     return "attr/" + nm
@@ -1107,6 +1135,11 @@ def run(ctx):
                 ctx.count("interpolation into a preloaded output")
             elif len(call) >= 3 and isinstance(call[-1], bool):
                 ctx.count("persistent=%s dense=%s" % ("custom-name" if isinstance(call[-2], str) else call[-2], call[-1]))
+            if call[0] in ("v2f", "f2v", "sv2c", "sf2c", "c2v", "c2f"):
+                st_ = call[3]
+                ctx.count("interpolation input: " + (("dense" if st_ else "sparse") + ", all written" if isinstance(st_, bool) else
+                          "%s, default %s, %s written" % ("dense" if st_[0] == "d" else "sparse", "0" if st_[1] == 0 else "non-zero",
+                                                          "nothing" if not st_[2] else "partly")) + (", vector" if call[2] and isinstance(call[2][0], list) else ", scalar"))
             if call[0] in ("f2v", "c2v", "c2f") and len(call) > 6 and call[6]:
                 ctx.count("weight given in another spelling")
         ctx.case_seen([c["V"], c.get("F"), c.get("C"), c["script"]],
